@@ -681,8 +681,14 @@ static void parse_opts(char **tok, int ntok, int from)
 	free(G.chunks);
 	G.chunks = NULL;
 	G.nchunks = G.chunkpos = 0;
+	memset(g_mask_key, 0, sizeof(g_mask_key));
 	for (int i = from; i < ntok; i++) {
-		if (strncmp(tok[i], "align=", 6) == 0) {
+		if (strncmp(tok[i], "key=", 4) == 0) {
+			size_t kn;
+			uint8_t *k = unhex(tok[i] + 4, &kn);
+			memcpy(g_mask_key, k, kn < 4 ? kn : 4);
+			free(k);
+		} else if (strncmp(tok[i], "align=", 6) == 0) {
 			G.align = (unsigned)atoi(tok[i] + 6) % 16;
 		} else if (strcmp(tok[i], "cb=err") == 0) {
 			g_cbret = WS_ERROR;
@@ -755,19 +761,13 @@ int main(void)
 				pump();
 			}
 		} else if (strcmp(op, "send") == 0 && ntok >= 3) {
-			/* send <opcode> <payloadhex> [keyhex] [wfail] */
+			/* send <opcode> <payloadhex> [key=<hex>] [wfail] */
 			if (!G.alive) {
 				ev("dead");
 			} else {
-				size_t n, kn = 0;
+				size_t n;
 				uint8_t *b = unhex(tok[2], &n);
 				parse_opts(tok, ntok, 3);
-				memset(g_mask_key, 0, 4);
-				if (ntok > 3 && strcmp(tok[3], "wfail") != 0) {
-					uint8_t *k = unhex(tok[3], &kn);
-					memcpy(g_mask_key, k, kn < 4 ? kn : 4);
-					free(k);
-				}
 				unsigned opc = (unsigned)strtoul(tok[1], NULL, 10);
 				/* exact-size heap copy: the code masks client payloads in place */
 				uint8_t *p = malloc(n + (n == 0));
